@@ -985,10 +985,15 @@ impl fmt::Display for Type1<'_> {
 
     t1_str.push_str(&self.type2.to_string());
 
-    if let Type2::Typename { .. } = self.type2 {
-      if self.operator.is_some() {
-        t1_str.push(' ');
-      }
+    // an operator must be set off from a left operand that ends in an identifier,
+    // which would otherwise absorb the "." of the operator
+    let ident_tail = matches!(
+      self.type2,
+      Type2::Typename { .. } | Type2::Unwrap { .. } | Type2::ChoiceFromGroup { .. }
+    );
+
+    if ident_tail && self.operator.is_some() {
+      t1_str.push(' ');
     }
 
     #[cfg(feature = "ast-comments")]
@@ -1003,7 +1008,7 @@ impl fmt::Display for Type1<'_> {
         t1_str.push_str(&comments.to_string());
       }
 
-      if let Type2::Typename { .. } = self.type2 {
+      if ident_tail {
         t1_str.push(' ');
       }
 
@@ -1018,7 +1023,7 @@ impl fmt::Display for Type1<'_> {
     if let Some(o) = &self.operator {
       t1_str.push_str(&o.operator.to_string());
 
-      if let Type2::Typename { .. } = self.type2 {
+      if ident_tail {
         t1_str.push(' ');
       }
 
